@@ -17,6 +17,8 @@ What is proved, over `GopModel.Scope` (Go's block scoping on a linearised progra
 * `C12_resolve_innermost`    `lookup` returns the FIRST binding in innermost-frame-first,
                              latest-declaration-first order: no nearer binding of the same name is skipped.
 * `C12_resolve_none`         a use resolves to nothing (a universe object) iff no frame binds the name.
+* `C12_impl_group_position_witness`  the first invariant is FALSE for what cl+gogen record for the
+                             2nd, 3rd … name of `a, b := …` / `var a, b = …` (one position for the whole group).
 * `C12_scope_exit_restores`  after a well-nested block the scope stack is exactly what it was:
                              nothing declared inside is visible afterwards, and no `unbalanced` outcome.
 
@@ -196,6 +198,12 @@ theorem C12_uses_elsewhere (pkg : Frame) (toks : List Tok) (r : Res) (st : Stack
     rcases h2 d rfl with h3 | h3
     · exact (hdisj d h1).1 h3
     · exact (hdisj d h1).2 h3
+
+/-- The invariant `Defs[id].Pos() = id.Pos()` FAILS for what the implementation records when one
+declaration introduces several names (replayed on the real checker by harness/cmd/c12, keys
+`defs-not-at-own-pos:Var:define-nonfirst|valuespec|range-var|forphrase-var`). -/
+theorem C12_impl_group_position_witness :
+    ∃ e ∈ implDefsOfGroup [("a", 1), ("b", 4)], e.2 ≠ e.1 := by decide
 
 /-! ### blocks -/
 
